@@ -369,6 +369,8 @@ class LockStep:
                     self.ctl_fw(idx, stp, drain)
                 elif kind == "reload":
                     self.reload(idx, stp[1])
+                elif kind == "save":
+                    self.save_only(idx, stp[1])
                 else:
                     raise AssertionError(kind)
             except PumpDied:
@@ -388,6 +390,33 @@ class LockStep:
                     raise HarnessError("monitor hook failed in final drain") from eng.hook_error
                 self.judge_sends()
         return out
+
+    def save_only(self, idx, ext):
+        """A periodic save happens (the node table is written to a file): nothing the gateway holds may change - neither
+        the tree nor the sleep state, the withheld replies, the desired values or the reboot flags. The model is untouched."""
+        import os
+        import tempfile
+        from mysensors.persistence import Persistence
+
+        out, eng, gw = self.out, self.eng, self.eng.gw
+        before = snapshot(gw)
+        d = tempfile.mkdtemp(prefix="vf-save-")
+        try:
+            Persistence(gw.sensors, lambda save: (lambda: None), persistence_file=os.path.join(d, f"net.{ext}")).save_sensors()
+        except Exception as exc:
+            raise HarnessError(f"save through {ext} failed at step {idx}") from exc
+        finally:
+            for f in os.listdir(d):
+                os.remove(os.path.join(d, f))
+            os.rmdir(d)
+        after = snapshot(gw)
+        out.count("saves_in_history")
+        if after != before:
+            parts = [nm for nm, a, b in zip(("tree", "transient", "ota", "can_log"), before, after) if a != b]
+            for prop in ("C08", "C07", "C04"):
+                if prop in self.props:
+                    out.v(prop, f"save-changes-live-state:{ext}:{','.join(parts)}", f"step {idx}: saving the node table as {ext} changed the gateway's own {parts}", idx)
+                    break
 
     def reload(self, idx, ext):
         """The node table goes through the persistence file and back (what a restart does to it): the tree survives,
